@@ -18,7 +18,7 @@ LEVEL = "exploration"
 RULE = (
     "Hypothesis-generated values: str (empty, non-ASCII, astral, CR/LF mixes, up to 1 MiB), bytes, bytearray, subclasses of str / bytes carrying state of their own, None, picklable "
     "objects, pandas frames (int/float/bool/str columns, default or labelled/named index), instances of a class with a "
-    "registered file codec and of a class with a registered generic codec; registrations drawn from {codec for another type, "
+    "registered file codec, of a class with a registered generic codec and of one whose generic codec writes a directory of part files; registrations drawn from {codec for another type, "
     "second codec for the same type under another reference, codec taking over str for new writes, subclass of the builtin "
     "string codec that inherits its reference} applied between write and read and, in generated order, in the fresh reading "
     "process; store in {local, local+LRU, DBFS over the fake}. The value goes through a kept data function, dds.load in the "
@@ -53,7 +53,8 @@ def value_strategy():
         st.text(max_size=40),
         st.text(alphabet="ab\r\né\U0001F600", max_size=12),
     )
-    big = st.just("µ" * (2 ** 19))   # 1 MiB of UTF-8
+    # 1 MiB of UTF-8 and more; in the last two a multi-byte character straddles every multiple of 2**20 bytes
+    big = st.sampled_from(["µ" * (2 ** 19), "a" + "µ" * (2 ** 19 + 10), "€" * 400000])
     blobs = st.one_of(st.sampled_from([b"", b"\x00", b"\r\n", b"\xff\xfe", bytes(range(256))]), st.binary(max_size=64))
     picklable = st.recursive(
         st.one_of(st.integers(-5, 5), st.floats(allow_nan=False), st.text(max_size=5), st.booleans()),
@@ -78,6 +79,7 @@ def value_strategy():
         blobs.map(lambda b: {"k": "bytearray", "v": enc(b)}),
         st.tuples(st.text(max_size=6), st.integers(0, 3)).map(lambda t: {"k": "strsub", "v": t[0], "tag": t[1]}),
         st.tuples(st.binary(max_size=6), st.integers(0, 3)).map(lambda t: {"k": "bytessub", "v": enc(t[0]), "tag": t[1]}),
+        st.integers(0, 9).map(lambda n: {"k": "galaxy", "n": n}),
         st.just({"k": "none"}),
         picklable.map(lambda v: {"k": "pickle", "v": enc(v)}),
         frame.map(lambda f: {"k": "frame", "v": f}),
@@ -93,13 +95,13 @@ def case_strategy():
     def gen(draw):
         v = draw(value_strategy())
         store = draw(st.sampled_from(["local", "local", "local-lru", "dbfs"]))
-        if v["k"] == "sun" and store == "dbfs":
+        if v["k"] in ("sun", "galaxy") and store == "dbfs":
             store = "local"
-        pre = ["moon", "sun"] + (["other"] if draw(st.booleans()) else [])
+        pre = ["moon", "sun", "galaxy"] + (["other"] if draw(st.booleans()) else [])
         ops = draw(st.lists(st.sampled_from(["other", "moon_alt", "altstr", "shout", "moon", "sun"]), max_size=3, unique=True))
-        reader = draw(st.permutations(["moon", "sun", "moon_alt", "altstr", "shout", "other"]))
-        reader = reader[: draw(st.integers(0, 6))]
-        for need in ("moon", "sun"):
+        reader = draw(st.permutations(["moon", "sun", "galaxy", "moon_alt", "altstr", "shout", "other"]))
+        reader = reader[: draw(st.integers(0, 7))]
+        for need in ("moon", "sun", "galaxy"):
             if v["k"] == need and need not in reader:
                 reader = list(reader) + [need] if draw(st.booleans()) else [need] + list(reader)
         case = {"value": v, "store": store, "pre": pre, "ops": ops, "reader": list(reader)}
@@ -147,6 +149,10 @@ def build_value(spec):
         from ..harness.c17_helpers import TaggedBytes
 
         return TaggedBytes(bytes(dec(spec["v"])), spec["tag"])
+    if k == "galaxy":
+        from ..harness.c17_helpers import Galaxy
+
+        return Galaxy(spec["n"])
     if k == "moon":
         return Moon(spec["n"])
     if k == "sun":
@@ -299,10 +305,10 @@ def check_case(case, ev=None, scratch=None):
                 if not ok:
                     raise Violation(f"{what}: {name} returned {got} (value or type differs from what was kept)", case)
             k = case["value"]["k"]
-            if k in ("moon", "sun"):
-                ref = {"moon": "user.moon_file", "sun": "user.sun"}[k]
+            if k in ("moon", "sun", "galaxy"):
+                ref = {"moon": "user.moon_file", "sun": "user.sun", "galaxy": "user.galaxy_parts"}[k]
                 des = [r for (op, r) in out["log"] if op == "de"]
-                if any(r != ref for r in des if r.startswith("user.moon") or r == "user.sun") or (phase == "read" and ref not in des):
+                if any(r != ref for r in des if r.startswith("user.moon") or r in ("user.sun", "user.galaxy_parts")) or (phase == "read" and ref not in des):
                     raise Violation(f"{what}: the value written by codec {ref} was decoded by {des}", case)
         # verbatim files
         k = case["value"]["k"]
